@@ -9,6 +9,7 @@ import (
 
 	ipfslog "berty.tech/go-ipfs-log"
 	"berty.tech/go-ipfs-log/iface"
+	"berty.tech/go-orbit-db/verifhook"
 	cid "github.com/ipfs/go-cid"
 	"github.com/libp2p/go-libp2p/core/event"
 	"github.com/libp2p/go-libp2p/p2p/host/eventbus"
@@ -157,6 +158,7 @@ func (r *replicator) Load(ctx context.Context, entries []ipfslog.Entry) {
 
 	ctx, span := r.tracer.Start(ctx, "replicator-load", trace.WithAttributes(otkv.String("cids", strings.Join(cidsStrings, ","))))
 	defer span.End()
+	defer verifhook.At("replicator.load.done", r)
 
 	// bind context with root ctx
 	ctx, cancel := r.rootContextWithCancel(ctx)
@@ -205,6 +207,7 @@ func (r *replicator) processOne(ctx context.Context, wg *sync.WaitGroup) error {
 	}
 
 	// mark this process has done
+	verifhook.At("replicator.before.done", r, e.GetHash())
 	r.processEntryDone(e)
 	return nil
 }
@@ -317,6 +320,7 @@ func (r *replicator) generateEmitter(bus event.Bus) error {
 }
 
 func (r *replicator) waitForProcessSlot(ctx context.Context) (e processItem, err error) {
+	verifhook.At("replicator.slot.wait", r)
 	if err := r.sem.Acquire(ctx, 1); err != nil {
 		return nil, fmt.Errorf("failed to acquire process slot: %w", err)
 	}
@@ -328,6 +332,7 @@ func (r *replicator) waitForProcessSlot(ctx context.Context) (e processItem, err
 	r.tasks[e.GetHash()] = stateFetching
 
 	r.muProcess.Unlock()
+	verifhook.At("replicator.dequeued", r, e.GetHash())
 	return
 }
 
@@ -414,6 +419,7 @@ func (r *replicator) idle() {
 	r.muBuffer.Lock()
 
 	if len(r.buffer) > 0 {
+		verifhook.At("replicator.loadend", r, r.buffer)
 		if err := r.emitters.evtLoadEnd.Emit(NewEventLoadEnd(r.buffer)); err != nil {
 			r.logger.Warn("unable to emit event load end", zap.Error(err))
 		}
